@@ -151,11 +151,23 @@ async fn run_inner(certs: &Certs, c: &Case) -> Outcome {
     }
     // registrations that arrive after the stall stay in the router's queue
     let mut answered_after = 0usize;
+    let mut unanswered_in_a_row = 0usize;
     for i in 0..nq {
         let f = if c.mixed && coin() { reg_pub(ns_a, "aaa") } else { reg_sub(ns_a, "aaa") };
-        if let Some(s) = reg(&conns[(before + i) % conns.len()], f, Duration::from_secs(10)).await {
-            held.push(s);
-            answered_after += 1;
+        // once registrations stop being answered (a dead-locked server) do not wait long for
+        // each of the remaining ones: they are still made, which is what matters
+        let wait = if unanswered_in_a_row >= 2 { Duration::from_millis(40) } else { Duration::from_secs(3) };
+        match raw_open(&conns[(before + i) % conns.len()], f, wait).await {
+            Ok((s, FirstReply::Frame(Frame::Ok))) => {
+                held.push(s);
+                answered_after += 1;
+                unanswered_in_a_row = 0;
+            }
+            Ok((s, _)) => {
+                held.push(s);
+                unanswered_in_a_row += 1;
+            }
+            Err(_) => unanswered_in_a_row += 1,
         }
     }
     // ---- topic B must still register and route ----
@@ -164,6 +176,31 @@ async fn run_inner(certs: &Certs, c: &Case) -> Outcome {
     let ctx_s = format!("topic A stalled={stalled} after {sent}x64 KiB, {before} registrations before and {nq} after the stall ({answered_after} answered)");
     if let Err(e) = raw {
         return Outcome::fail("other-topic-blocked", format!("{ctx_s}: a raw publisher/subscriber pair on topic B: {e}"));
+    }
+    // a client whose publisher is stuck on the stalled topic multiplexes its other streams
+    // over the same connection: those must keep working too
+    {
+        let shared = async {
+            let mut s = reg(&c1, reg_sub(ns_b, "ddd"), dl).await.ok_or("subscriber registration on the shared connection not answered Ok")?;
+            let mut p = reg(&c1, reg_pub(ns_b, "ddd"), dl).await.ok_or("publisher registration on the shared connection not answered Ok")?;
+            let end = Instant::now() + dl;
+            loop {
+                p.send(msg(b"shared-probe".to_vec())).await.map_err(|e| e.to_string())?;
+                match tokio::time::timeout(Duration::from_millis(50), s.next()).await {
+                    Ok(Some(Ok(_))) => return Ok::<(), String>(()),
+                    Ok(o) => return Err(format!("subscriber stream ended: {:?}", o.map(|x| x.map(|_| ()).map_err(|e| e.to_string())))),
+                    Err(_) => {}
+                }
+                if Instant::now() > end {
+                    return Err("answered Ok but no message was routed before the deadline".to_string());
+                }
+            }
+        };
+        match tokio::time::timeout(dl + Duration::from_secs(2), shared).await {
+            Ok(Ok(())) => {}
+            Ok(Err(e)) => return Outcome::fail("other-topic-blocked-on-shared-connection", format!("{ctx_s}: a publisher/subscriber pair on topic B opened over the connection that also carries the stuck publishers: {e}")),
+            Err(_) => return Outcome::fail("other-topic-blocked-on-shared-connection", format!("{ctx_s}: opening streams for topic B over the connection that also carries the stuck publishers did not complete")),
+        }
     }
     if let Err(e) = round_trip_client(addr, certs, "/healthy/ccc", dl).await {
         return Outcome::fail("other-topic-blocked-client", format!("{ctx_s}: {e}"));
@@ -219,5 +256,5 @@ pub fn replay(id: &str, case: &serde_json::Value) -> i32 {
             return 2;
         }
     };
-    crate::core::replay_case::<Case>(id, case, 2, |c| env.rt.block_on(run_case(&env.certs, c)))
+    crate::core::replay_case::<Case>(id, case, 2, |c| match crate::core::catch(|| env.rt.block_on(run_case(&env.certs, c))) { Ok(o) => o, Err(p) => Outcome::fail(format!("panic:{}", crate::core::panics::normalise(&p)), format!("panicked: {p}")) })
 }
